@@ -49,14 +49,18 @@ def judge (line : String) : String :=
           else if Spec.metaOK op now (canon pre) post res then "1" else "0"
         let av := if cands.any (fun r => isOutOfDomain r.out) then "-"
           else if cands.any (fun r => outEq r.out res && decide (Spec.abs now r.db = Spec.abs now post)) then "1" else "0"
-        let tail := s!"A={av} P={invPre} I={inv} S={sv} N={nv} V={vv} K={ks}"
+        let xv := if Spec.crossType op now pre then "1" else "0"
+        let ev := if Spec.expiryInvolved op pre then "1" else "0"
+        let tail := s!"A={av} P={invPre} I={inv} S={sv} N={nv} V={vv} X={xv} E={ev} K={ks}"
         if cands.any (fun r => isOutOfDomain r.out) then s!"{seq} M=- {tail}"
         else
           match cands.find? (fun r => outEq r.out res && decide (canon r.db = post)) with
           | some _ => s!"{seq} M=1 {tail}"
           | none =>
             match cands.head? with
-            | some r => s!"{seq} M=0 {tail} model= {showOut r.out} | {showDump (canon r.db)}"
+            | some r =>
+              let parts := (if outEq r.out res then [] else ["out"]) ++ Spec.diffParts (canon r.db) post
+              s!"{seq} M=0 {tail} D={String.intercalate "," parts} model= {showOut r.out} | {showDump (canon r.db)}"
             | none => s!"{seq} M=0 {tail}"
       | none, _, _, _, _ => s!"{seq} ERR bad now"
       | _, .error e, _, _, _ => s!"{seq} ERR pre: {e}"
@@ -70,7 +74,9 @@ partial def loop (h : IO.FS.Stream) (out : IO.FS.Stream) : IO Unit := do
   let line ← h.getLine
   if line.isEmpty then return ()
   let l := line.trimAsciiEnd.toString
-  if !l.isEmpty then
+  if l.startsWith "#" then
+    out.putStrLn l
+  else if !l.isEmpty then
     out.putStrLn (judge l)
   loop h out
 
